@@ -117,6 +117,26 @@ CLAIMED.update({
             "context, $__state/{{ __state }} bypass ctx(), dunder names can be published by name."),
 })
 
+CLAIMED.update({
+    "C06": ("PARTIAL. Proved: the offered context is the in-order merge of the snapshots the staged entry points to; "
+            "processing a transition leaves the staged entry of every task other than its target untouched (a publish reaches "
+            "only its target); a published snapshot is never modified later; a delta contains exactly the published names. "
+            "Tested, not proved: every value visible to a task was published by a causal ancestor (taint tokens + ancestry "
+            "through prev pointers). Supersession order at joins is refuted by known finding D11.",
+            "Known finding D11; C16 characterises the merge itself."),
+    "C07": ("PARTIAL. Proved: barrier satisfied iff the number of distinct inbound tasks with a satisfied transition into the "
+            "join on the route reaches the requirement (all / count); each inbound task counts once through its own record; "
+            "only ready entries are offered; completing (not by cancel) with an unready unsatisfiable join fails the workflow "
+            "and hands the joins over to be logged. Tested, not proved: ready flag = barrier status at the last arrival; once "
+            "per satisfaction (refuted for join: n below inbound count by known finding D1).",
+            "Known findings D1, D21."),
+    "C19": ("PARTIAL. Determinism holds by construction for the model (Gallina functions) and the engine is compared with "
+            "that single answer after every API call; proved: offers are sorted by (id, route); the query is the identity in "
+            "every status in which nothing may be offered. Tested, not proved: identical artefacts across interpreter hash "
+            "seeds (subprocess replay, key order included); query idempotence while running.",
+            "Hash-seed dependence is a CPython behaviour no Gallina model exhibits."),
+})
+
 NOT_YET = {}
 
 
